@@ -29,6 +29,9 @@ pub fn classify(e: &JmespathError) -> ImpErr {
                 RuntimeError::UnknownFunction(_) => "UnknownFunction",
                 RuntimeError::InvalidType { .. } => "InvalidType",
                 RuntimeError::InvalidReturnType { .. } => "InvalidReturnType",
+                // a variant this harness does not know (the enum may grow)
+                #[allow(unreachable_patterns)]
+                _ => "OtherRuntimeError",
             }
             .to_string(),
             false,
